@@ -438,6 +438,84 @@ def readModel (model : Int) (inclBonds : Bool) (lines0 : List (List Char)) : R F
           | some (.ok bs) => some (.ok { atoms := atoms, models := [coords], bonds := bs })
         else some (.ok { atoms := atoms, models := [coords], bonds := [] })
 
+/-! ## CRYST1 (text level; the trigonometry between box vectors and cell parameters is not modelled) -/
+
+/-- cell lengths a, b, c and angles alpha, beta, gamma (degrees) as the writer formats them -/
+structure Cell where
+  a : Fx
+  b : Fx
+  c : Fx
+  alpha : Fx
+  beta : Fx
+  gamma : Fx
+  deriving DecidableEq, Repr
+
+def cryst1Tail : List Char := " P 1           1          ".toList
+
+/-- `f"CRYST1{a:>9.3f}{b:>9.3f}{c:>9.3f}{alpha:>7.2f}{beta:>7.2f}{gamma:>7.2f} P 1           1          "` -/
+def cryst1Line (u : Cell) : List Char :=
+  "CRYST1".toList ++ (rjust 9 (fmtFixed 3 u.a) ++ (rjust 9 (fmtFixed 3 u.b) ++ (rjust 9 (fmtFixed 3 u.c) ++
+  (rjust 7 (fmtFixed 2 u.alpha) ++ (rjust 7 (fmtFixed 2 u.beta) ++ (rjust 7 (fmtFixed 2 u.gamma) ++ cryst1Tail))))))
+
+/-- the box part of `_check_pdb_compatibility` (after the fix): every value fits its columns as written -/
+def checkCell (u : Cell) : Bool :=
+  (fmtFixed 3 u.a).length ≤ 9 && (fmtFixed 3 u.b).length ≤ 9 && (fmtFixed 3 u.c).length ≤ 9 &&
+  (fmtFixed 2 u.alpha).length ≤ 7 && (fmtFixed 2 u.beta).length ≤ 7 && (fmtFixed 2 u.gamma).length ≤ 7
+
+/-- `set_structure` for a structure with (`some`) or without a box -/
+def writePdbBox (fl : Flags) (cell : Option Cell) (s : Struct) : Except Err (List (List Char)) :=
+  match cell with
+  | none => writePdb fl s
+  | some u =>
+    if checkCell u then
+      match writePdb fl s with
+      | .ok ls => .ok (cryst1Line u :: ls)
+      | .error e => .error e
+    else .error .badStructure
+
+/-- what the reader gets out of a CRYST1 record: lengths in 10⁻³ Å, angles in 10⁻² degrees -/
+structure CellRead where
+  a : Int
+  b : Int
+  c : Int
+  alpha : Int
+  beta : Int
+  gamma : Int
+  deriving DecidableEq, Repr
+
+/-- the six `float(line[slice])` of `get_structure`; `some none` = ValueError = "box is ignored" -/
+def parseCryst1 (l : List Char) : Option (Option CellRead) :=
+  match (parseFixed (slice 6 15 l)).units 3 with
+  | none => none
+  | some (.error _) => some none
+  | some (.ok a) =>
+  match (parseFixed (slice 15 24 l)).units 3 with
+  | none => none
+  | some (.error _) => some none
+  | some (.ok b) =>
+  match (parseFixed (slice 24 33 l)).units 3 with
+  | none => none
+  | some (.error _) => some none
+  | some (.ok c) =>
+  match (parseFixed (slice 33 40 l)).units 2 with
+  | none => none
+  | some (.error _) => some none
+  | some (.ok al) =>
+  match (parseFixed (slice 40 47 l)).units 2 with
+  | none => none
+  | some (.error _) => some none
+  | some (.ok be) =>
+  match (parseFixed (slice 47 54 l)).units 2 with
+  | none => none
+  | some (.error _) => some none
+  | some (.ok ga) => some (some { a := a, b := b, c := c, alpha := al, beta := be, gamma := ga })
+
+/-- the first CRYST1 record of the (padded) file decides -/
+def readCell (lines0 : List (List Char)) : Option (Option CellRead) :=
+  match (lines0.map (ljust 80)).find? (startsWith "CRYST1".toList) with
+  | none => some none
+  | some l => parseCryst1 l
+
 /-! ## Specification predicates used by the theorems (`Props/C07.lean`) -/
 
 /-- `|x|` rounded to `d` decimals fits `w` columns together with the sign and the decimal point:
